@@ -38,3 +38,47 @@ theorem Node.allRows_branch (d : NodeData α) (s : List (Option (Node α))) (ch 
   simp only [Node.allRows]
   congr 1
   exact List.attach_map_val (l := ch) (f := fun p => p.2.allRows)
+
+/-- `Branch.add_row` on the children dict: exactly the child stored under `idx` is replaced -/
+theorem mapM_update_spec {β : Type} (f : β → Option β) (idx : Nat) :
+    ∀ (ch ch' : List (Nat × β)), (ch.map (·.1)).Nodup →
+      ch.mapM (fun p => if p.1 == idx then (f p.2).map (fun n => (p.1, n)) else some p) = some ch' →
+      ((∀ p ∈ ch, p.1 ≠ idx) ∧ ch' = ch) ∨
+      ∃ pre q post n', ch = pre ++ q :: post ∧ q.1 = idx ∧ f q.2 = some n' ∧ ch' = pre ++ (q.1, n') :: post ∧
+        (∀ p ∈ pre, p.1 ≠ idx) ∧ (∀ p ∈ post, p.1 ≠ idx) := by
+  intro ch
+  induction ch with
+  | nil => intro ch' _ h; left; simp at h; exact ⟨by simp, h⟩
+  | cons a rest ih =>
+    intro ch' hnd h
+    rw [List.map_cons, List.nodup_cons] at hnd
+    rw [List.mapM_cons] at h
+    simp only [Option.bind_eq_bind, Option.pure_def, Option.bind_eq_some_iff, Option.some.injEq] at h
+    obtain ⟨b, hb, bs, hbs, hch'⟩ := h
+    by_cases ha : a.1 = idx
+    · have hrest : ∀ p ∈ rest, p.1 ≠ idx := by
+        intro p hp hpi
+        exact hnd.1 (List.mem_map.mpr ⟨p, hp, by rw [hpi, ha]⟩)
+      have hbeq : (a.1 == idx) = true := by simpa using ha
+      rw [if_pos hbeq, Option.map_eq_some_iff] at hb
+      obtain ⟨n', hf, hbn⟩ := hb
+      rcases ih bs hnd.2 hbs with ⟨_, hr'⟩ | ⟨pre, q, post, n2, hq, hqi, _, _, _, _⟩
+      · right
+        refine ⟨[], a, rest, n', by simp, ha, hf, ?_, by simp, hrest⟩
+        rw [← hch', ← hbn, hr']; simp
+      · exfalso; exact hrest q (by rw [hq]; simp) hqi
+    · have hbeq : ¬ (a.1 == idx) = true := by simpa using ha
+      rw [if_neg hbeq, Option.some.injEq] at hb
+      rcases ih bs hnd.2 hbs with ⟨hall, hr'⟩ | ⟨pre, q, post, n2, hq, hqi, hfq, hr', hpre, hpost⟩
+      · left
+        refine ⟨?_, by rw [← hch', hr', hb]⟩
+        intro p hp
+        rcases List.mem_cons.mp hp with rfl | hp
+        · exact ha
+        · exact hall p hp
+      · right
+        refine ⟨a :: pre, q, post, n2, by rw [hq]; simp, hqi, hfq, by rw [← hch', hr', hb]; simp, ?_, hpost⟩
+        intro p hp
+        rcases List.mem_cons.mp hp with rfl | hp
+        · exact ha
+        · exact hpre p hp
